@@ -1,17 +1,8 @@
 //! C19: CRC tables vs bitwise definitions
+use crate::crcsites::*;
 use crate::util::*;
 use icy_engine::{get_crc16, get_crc32, update_crc16, update_crc32};
 
-fn bit16(bs: &[u8]) -> u16 {
-    let mut c: u16 = 0;
-    for &b in bs {
-        c ^= (b as u16) << 8;
-        for _ in 0..8 {
-            c = if c & 0x8000 != 0 { (c << 1) ^ 0x1021 } else { c << 1 };
-        }
-    }
-    c
-}
 fn bit32(bs: &[u8]) -> u32 {
     let mut c: u32 = 0xFFFF_FFFF;
     for &b in bs {
@@ -50,15 +41,97 @@ fn one(run: &mut Run, bs: &[u8]) {
     }
 }
 
+/// one replay input: a hex byte string, or a call-site scenario (`rect:` / `font:` / `pal:`)
+fn replay_one(run: &mut Run, r: &str) {
+    let r = r.trim();
+    if let Some(sc) = RectSc::parse(r) {
+        let serial = run_rect(run, &sc);
+        one(run, &serial);
+    } else if let Some(sc) = FontSc::parse(r) {
+        let bytes = run_font(run, &sc);
+        one(run, &bytes);
+        if let Some(&(g, row, m)) = sc.flips.last() {
+            let mut base = sc.clone();
+            base.flips.pop();
+            run_font_pair(run, &base, g, row, m);
+        }
+    } else if let Some(h) = r.strip_prefix("pal:") {
+        run_pal(run, h);
+    } else if r.contains(':') {
+        run.oracle_fail("replay", r, "replay input not understood");
+    } else {
+        one(run, &unhex(r));
+    }
+}
+
+/// the call sites: the engine's own incremental use of update_crc16 / update_crc32
+fn sites(run: &mut Run, rng: &mut Rng, thorough: bool) {
+    // DECRQCRA through the real ANSI parser
+    for sc in fixed_rects() {
+        let serial = run_rect(run, &sc);
+        if serial.len() > 16 {
+            one(run, &serial);
+        }
+    }
+    for k in 0..(if thorough { 6000 } else { 300 }) {
+        let sc = gen_rect(rng, k % 150 == 149);
+        let serial = run_rect(run, &sc);
+        if k % 16 == 0 {
+            one(run, &serial);
+        }
+    }
+    // font checksums
+    for sc in fixed_fonts() {
+        let bytes = run_font(run, &sc);
+        if bytes.len() < 6000 {
+            one(run, &bytes);
+        }
+    }
+    for (fmt, h, n, g) in [("psf1m1", 16, 512, 300), ("psf1m1", 16, 512, 256), ("psf1m1", 16, 512, 511), ("psf1m1", 16, 512, 255), ("psf2w8", 8, 400, 399), ("psf2w8", 8, 400, 0), ("plain", 16, 256, 255)] {
+        let sc = FontSc { fmt: fmt.to_string(), h, n, seed: 77 + g as u64, len: None, holes: vec![], flips: vec![] };
+        run_font_pair(run, &sc, g, rng.below(h as u64) as usize, 1 << rng.below(8));
+    }
+    for _ in 0..(if thorough { 600 } else { 30 }) {
+        let sc = gen_font(rng);
+        run_font(run, &sc);
+        if rng.chance(1, 3) {
+            run_font_pair(run, &sc, rng.below(sc.n.max(1) as u64) as usize, rng.below(sc.h as u64) as usize, (rng.next() as u8) | 1);
+        }
+    }
+    if thorough {
+        // a PSF2 font whose indices run through the surrogate gap (char::from_u32 has no value there)
+        run_font(run, &FontSc { fmt: "psf2w8".to_string(), h: 1, n: 0xE010, seed: 5, len: None, holes: vec![], flips: vec![] });
+    }
+    // palette checksums: incremental across calls
+    for h in fixed_pals() {
+        run_pal(run, &h);
+    }
+    for start in ["n", "d", "l1.9"] {
+        exhaustive_pal(run, start, &["p", "g"], if thorough { 9 } else { 6 });
+    }
+    let alphabet = ["p", "g", "s0", "sl", "r1", "c", "z-", "z+", "f", "i", "k"];
+    exhaustive_pal(run, "n", &alphabet, if thorough { 5 } else { 2 });
+    exhaustive_pal(run, "l2.4", &alphabet, if thorough { 4 } else { 3 });
+    exhaustive_pal(run, "d", &["p", "g", "s0", "c", "z-", "i"], if thorough { 6 } else { 3 });
+    for _ in 0..(if thorough { 6000 } else { 300 }) {
+        let h = gen_pal(rng);
+        run_pal(run, &h);
+    }
+}
+
 pub fn run(run: &mut Run, seed: u64, thorough: bool, replay: Option<&str>, corpus: &[String]) {
     if let Some(r) = replay {
-        one(run, &unhex(r.trim()));
+        replay_one(run, r);
         return;
     }
     for c in corpus {
-        one(run, &unhex(c));
+        replay_one(run, c);
     }
     let mut rng = Rng::new(seed);
+    {
+        let mut rng_sites = Rng::new(seed ^ 0xC19C_19C1);
+        sites(run, &mut rng_sites, thorough);
+    }
     // all lengths 0..=48 over seeded bytes
     let reps = if thorough { 64 } else { 8 };
     for len in 0..=48usize {
